@@ -2,7 +2,7 @@
    Model: PL.Rainflow.Model (hand-written, tied to the code by the correspondence check of harness/props/c01.py).
    Only statements, `exact`, Print Assumptions. *)
 From Coq Require Import ZArith List Bool.
-From PL Require Import Rainflow.Model Rainflow.Eqb Rainflow.ChunkThm Rainflow.ChunkFKM Rainflow.Bounded.
+From PL Require Import Rainflow.Model Rainflow.Eqb Rainflow.ChunkThm Rainflow.ChunkFKM Rainflow.Chunk4 Rainflow.Bounded.
 Import ListNotations.
 Open Scope Z_scope.
 
@@ -30,6 +30,17 @@ Theorem chunk_local_index_correct (chunks : list (list Z)) g :
   nth l (nth k chunks []) 0 = nth g (concat chunks) 0.
 Proof. exact (ChunkFKM.chunk_local_index_correct chunks g). Qed.
 
+(* four-point detector: same cycles (values AND sample indices, in order), same residuals, same residual
+   index for EVERY signal and EVERY partition into non-empty chunks (unbounded).  Proof: after any prefix the
+   detector state is a function of the prefix alone (Chunk4.StateOK), by refinement of the Cython loop to an
+   item-level stack machine, irreducibility of the stored residual (re-scan closes nothing) and provisional
+   monotonicity (what the chunk's last sample closes, the next real turning point closes too, in order). *)
+Theorem fourpoint_chunked (cs : list (list Z)) :
+  cs <> [] -> Forall (fun C => C <> []) cs ->
+  let '(c1, r1, i1, _) := run4 cs in let '(c2, r2, i2, _) := run4 [concat cs] in
+  c1 = c2 /\ r1 = r2 /\ i1 = i2.
+Proof. exact (Chunk4.fourpoint_chunked cs). Qed.
+
 (* four-/three-point detectors: bounded instances (every signal over {0..3} of length <= 7, EVERY partition);
    the unbounded statements are [fourpoint_chunked_statement] / [threepoint_chunked_statement] below *)
 Definition fourpoint_chunked_statement : Prop := forall cs,
@@ -56,6 +67,7 @@ Proof. vm_compute. reflexivity. Qed.
 
 Print Assumptions new_turns_chunked.
 Print Assumptions fkm_chunked.
+Print Assumptions fourpoint_chunked.
 Print Assumptions recorder_chunks_4pt.
 Print Assumptions recorder_chunks_3pt.
 Print Assumptions chunk_local_index_correct.
